@@ -14,9 +14,11 @@ Resign == {"none", "right", "other", "outsider"}
 \* re-executed by the real assembler with the corrupted field, so that all roots are consistent with it
 HeaderMut == {"parent_unknown", "parent_grand", "miner_other", "version_root", "log_root", "tx_root", "gas_used",
               "gas_limit", "height_plus", "height_minus", "height_plus_rebuilt", "height_minus_rebuilt", "time_before_parent", "time_in_slot", "time_next_slot",
-              "time_future", "time_future_rebuilt", "extra_long", "extra_other"}
+              "time_future", "time_future_rebuilt", "extra_long", "extra_long_multibyte", "extra_other"}
 \* corruptions that leave the header hash alone
-BodyMut == {"none", "sig_reencoded", "sig_garbage", "txs_drop", "txs_dup", "txs_swap", "logs_drop", "confirm_garbage"}
+\* (txs_gas_one / txs_gas_shift: the gasUsed figure a transaction carries in the block body - not covered by any hash - is changed
+\*  for one transaction, or moved from one transaction to the other so that the sum stays)
+BodyMut == {"none", "sig_reencoded", "sig_garbage", "txs_drop", "txs_dup", "txs_swap", "logs_drop", "confirm_garbage", "txs_gas_one", "txs_gas_shift"}
 \* ---- family "tx": T re-executed by the real assembler with more transactions Z (one, for some classes two) of some class, signed by the right deputy
 \* (every root and gas figure is consistent; only Z itself may be ill-formed, expired or a replay).  bt = the block's time,
 \* L = the maximum transaction lifetime; block A1 (an ancestor of T in scenarios 2 and 3) carries a transfer X.
@@ -62,9 +64,9 @@ Breaks(m, r) ==
   \cup (CASE m = "parent_unknown" -> {"parent"}
           [] m \in {"parent_grand", "height_plus", "height_minus", "height_plus_rebuilt", "height_minus_rebuilt"} -> {"height"}
           [] m \in {"time_before_parent", "time_future", "time_future_rebuilt"} -> {"time"}
-          [] m = "extra_long" -> {"extra"}
+          [] m \in {"extra_long", "extra_long_multibyte"} -> {"extra"}   \* 257 bytes; 200 three-byte characters (the bound is in bytes)
           [] m \in {"txs_drop", "txs_dup", "txs_swap", "logs_drop", "tx_root"} -> {"body"}
-          [] m \in {"version_root", "log_root", "gas_used"} -> {"reexec"}
+          [] m \in {"version_root", "log_root", "gas_used", "txs_gas_one", "txs_gas_shift"} -> {"reexec"}
           [] OTHER -> {})
 Valid(m, r) == Breaks(m, r) = {}
 HashOf(m) == IF m \in HeaderMut \cup ZMut THEN m ELSE "T"      \* re-signing never changes the hash
